@@ -203,7 +203,12 @@ class BaseNode(Node):
         if isinstance(nodes, str):   # block import
             node.value_raw = nodes
         else:                        # node import
-            node.value_raw = nodes[0].value_raw
+            if isinstance(nodes[0].value, Type):
+                node.value_raw, units = nodes[0].value.value, nodes[0].value.unit
+                if node.value_raw is None:
+                    node.value_raw = Keyword.NONE
+            else:
+                node.value_raw, units = nodes[0].value_raw, nodes[0].units_raw
             if not node.units_raw:
-                node.units_raw = nodes[0].units_raw
+                node.units_raw = units
         
